@@ -50,6 +50,429 @@ theorem errors_of_live {σ} {s : Sim σ} {a : Spec σ} (r : Rel s a) (hf : a.fai
   simp only [gt_iff_lt, decide_eq_false_iff_not, Nat.not_lt, Nat.le_zero_eq] at this
   exact this
 
+/-! ### a solver failure inside a protocol call -/
+
+
+theorem protoLoopF_none {σ} (S : Sys σ) (T : Rat) (n : Option Nat) : ∀ (prot : Protocol) (s : Sim σ),
+    protoLoopF S T n none s prot = protoLoop S T n s prot
+  | [], _ => rfl
+  | (tEnd, p) :: rest, s => by
+    simp only [protoLoopF, protoLoop, decFail]
+    rcases updPars s p with ⟨s1, _ | e⟩
+    · simp only [reduceCtorEq, if_false]
+      rcases simulate S s1 (T + tEnd) n with ⟨s2, _ | e⟩
+      · simp only
+        split
+        · rfl
+        · exact protoLoopF_none S T n rest s2
+      · rfl
+    · rfl
+
+theorem expandProtocolF_none (T : Rat) (n : Nat) : ∀ (steps : List PStep),
+    expandProtocolF T n none steps = expandProtocol T n steps := by
+  intro steps
+  induction steps generalizing T with
+  | nil => rfl
+  | cons st rest ih => obtain ⟨d, p⟩ := st; simp [expandProtocolF, expandProtocol, decFail, ih]
+
+/-- on a FAILED simulator that holds results the rest of the loop only applies the parameter values -/
+theorem protoLoopF_failed {σ} (S : Sys σ) (T : Rat) (n : Nat) : ∀ (steps : List PStep) (T0 : Rat) (s : Sim σ),
+    s.errors > 0 → s.segs.isSome = true →
+    protoLoopF S T (some n) none s (cumRows T0 steps) = runStop S s (expandProtocolF (T + T0) n none steps)
+  | [], _, _, _, _ => rfl
+  | (d, p) :: rest, T0, s, he, hs => by
+    have e1 : T + (T0 + d) = T + T0 + d := by grind
+    simp only [cumRows, protoLoopF, expandProtocolF, runStop, step, decFail, reduceCtorEq, if_false, e1]
+    have hu : (updPars s p).1.errors > 0 := he
+    have hu2 : (updPars s p).1.segs.isSome = true := hs
+    rcases hup : updPars s p with ⟨s1, _ | e⟩
+    · rw [hup] at hu hu2
+      simp only
+      have hsim : simulate S s1 (T + T0 + d) (some n) = (s1, none) := by simp [simulate, hu]
+      rw [hsim]
+      have hnone : s1.segs.isNone = false := by cases hh : s1.segs <;> simp [hh] at hu2 ⊢
+      simp only [hnone, Bool.false_eq_true, if_false]
+      have := protoLoopF_failed S T n rest (T0 + d) s1 hu hu2
+      rw [this, e1]
+    · rfl
+
+theorem failInstead_cases {σ} (s : Sim σ) (x : Out (Sim σ)) (he : s.errors = 0) :
+    (∃ e, x.2 = some e ∧ failInstead s x = (s, some e)) ∨
+    (x.2 = none ∧ failInstead s x = ({ s with errors := s.errors + 1 }, none)) := by
+  unfold failInstead
+  cases hx : x.2 with
+  | some e => exact Or.inl ⟨e, rfl, rfl⟩
+  | none => right; simp [he]
+
+theorem protoLoopF_eq {σ} (S : Sys σ) (T : Rat) (n : Nat) : ∀ (steps : List PStep) (T0 : Rat) (s : Sim σ)
+    (k : Option Nat), s.errors = 0 → (k = some 0 → s.segs.isSome = true) →
+    protoLoopF S T (some n) k s (cumRows T0 steps) = runStop S s (expandProtocolF (T + T0) n k steps)
+  | [], _, _, _, _, _ => rfl
+  | (d, p) :: rest, T0, s, none, he, _ => by
+    rw [protoLoopF_none, expandProtocolF_none]
+    exact protoLoop_eq S T n ((d, p) :: rest) T0 s he
+  | (d, p) :: rest, T0, s, some 0, he, hk => by
+    have hs := hk rfl
+    have e1 : T + (T0 + d) = T + T0 + d := by grind
+    simp only [cumRows, protoLoopF, expandProtocolF, runStop, step, decFail, if_true, e1]
+    have hu : (updPars s p).1.errors = 0 := he
+    have hu2 : (updPars s p).1.segs.isSome = true := hs
+    rcases hup : updPars s p with ⟨s1, _ | e⟩
+    · rw [hup] at hu hu2
+      simp only
+      rw [simulateF_eq]
+      rcases failInstead_cases s1 (simulate S s1 (T + T0 + d) (some n)) hu with ⟨e, _, hfi⟩ | ⟨_, hfi⟩
+      · rw [hfi]
+      · rw [hfi]
+        have hnone : s1.segs.isNone = false := by cases hh : s1.segs <;> simp [hh] at hu2 ⊢
+        simp only [hnone, Bool.false_eq_true, if_false]
+        have := protoLoopF_failed S T n rest (T0 + d) { s1 with errors := s1.errors + 1 }
+          (Nat.succ_pos _) hu2
+        rw [this, e1]
+    · rfl
+  | (d, p) :: rest, T0, s, some (j + 1), he, _ => by
+    have e1 : T + (T0 + d) = T + T0 + d := by grind
+    have hne : (some (j + 1) = some 0) = False := by simp
+    simp only [cumRows, protoLoopF, expandProtocolF, runStop, step, decFail, hne, if_false, e1]
+    have hu : (updPars s p).1.errors = 0 := he
+    rcases hup : updPars s p with ⟨s1, _ | e⟩
+    · rw [hup] at hu
+      simp only
+      have hs := simulate_ok S s1 (T + T0 + d) (some n) hu
+      rcases hsim : simulate S s1 (T + T0 + d) (some n) with ⟨s2, _ | e⟩
+      · rw [hsim] at hs
+        have hsome : s2.segs.isNone = false := by
+          have := hs.2 rfl
+          cases hh : s2.segs <;> simp [hh] at this ⊢
+        simp only [hsome, Bool.false_eq_true, if_false]
+        have := protoLoopF_eq S T n rest (T0 + d) s2 (some j) hs.1 (fun _ => hs.2 rfl)
+        rw [this, e1]
+      · rfl
+    · rfl
+
+/-- FRESH simulator, the FIRST step fails: nothing is stored, `if self.variables is None: break` leaves the loop — the
+    later steps' values are not applied -/
+
+theorem protoLoopF_break {σ} (S : Sys σ) (T : Rat) (n : Nat) (d : Rat) (p : Upd) (rest : List PStep) (T0 : Rat)
+    (s : Sim σ) (he : s.errors = 0) (hs : s.segs = none) :
+    protoLoopF S T (some n) (some 0) s (cumRows T0 ((d, p) :: rest)) =
+      runStop S s [.updPars p, .simulateF (T + T0 + d) (some n)] := by
+  have e1 : T + (T0 + d) = T + T0 + d := by grind
+  simp only [cumRows, protoLoopF, runStop, step, if_true, e1]
+  have hu : (updPars s p).1.errors = 0 := he
+  have hu2 : (updPars s p).1.segs = none := hs
+  rcases hup : updPars s p with ⟨s1, _ | e⟩
+  · rw [hup] at hu hu2
+    simp only
+    rw [simulateF_eq]
+    rcases failInstead_cases s1 (simulate S s1 (T + T0 + d) (some n)) hu with ⟨e, _, hfi⟩ | ⟨_, hfi⟩
+    · rw [hfi]
+    · rw [hfi]
+      have hu3 : s1.segs = none := hu2
+      simp only [hu3, Option.isNone_none, if_true]
+  · rfl
+
+
+theorem simulateProtocolF_eq {σ} (S : Sys σ) (s : Sim σ) (steps : List PStep) (n k : Nat) (T : Rat)
+    (hwf : wfSteps steps = true) (he : s.errors = 0) (hT : reached? s.segs = .ok T) :
+    simulateProtocolF S s (makeProtocol steps) n k =
+      runStop S s (if k == 0 && s.segs.isNone then (expandProtocolF T n (some k) (normSteps steps)).take 2
+        else expandProtocolF T n (some k) (normSteps steps)) := by
+  unfold simulateProtocolF
+  simp only [he, Nat.lt_irrefl, if_false, gt_iff_lt, hT, makeProtocol_wf steps hwf]
+  have e0 : T + 0 = T := by grind
+  by_cases hb : (k == 0 && s.segs.isNone) = true
+  · simp only [hb, if_true]
+    simp only [Bool.and_eq_true, beq_iff_eq] at hb
+    obtain ⟨hk, hsn⟩ := hb
+    subst hk
+    have hsn' : s.segs = none := by cases hh : s.segs <;> simp [hh] at hsn ⊢
+    cases hns : normSteps steps with
+    | nil => rfl
+    | cons st rest =>
+      obtain ⟨d, p⟩ := st
+      rw [protoLoopF_break S T n d p rest 0 s he hsn']
+      simp [expandProtocolF, e0]
+  · simp only [hb, Bool.false_eq_true, if_false]
+    rw [protoLoopF_eq S T n (normSteps steps) 0 s (some k) he ?_, e0]
+    intro hk
+    simp only [Option.some.injEq] at hk
+    subst hk
+    cases hh : s.segs <;> simp [hh] at hb ⊢
+
+theorem protocolF_refines {σ} (S : Sys σ) {s : Sim σ} {a : Spec σ} (r : Rel s a) (steps : List PStep) (n k : Nat)
+    (hwf : wfSteps steps = true) :
+    (simulateProtocolF S s (makeProtocol steps) n k).2 = (Spec.protocolF S a steps n k).2 ∧
+      Rel (simulateProtocolF S s (makeProtocol steps) n k).1 (Spec.protocolF S a steps n k).1 := by
+  simp only [Spec.protocolF]
+  by_cases hf : a.failed = true
+  · simp [simulateProtocolF, hf, r.errors_pos hf, r]
+  · have hf' : a.failed = false := by simpa using hf
+    rw [simulateProtocolF_eq S s steps n k a.now hwf (errors_of_live r hf') r.reached]
+    simp only [hf', Bool.false_eq_true, if_false, r.segs]
+    exact runStop_refines S _ s a r
+
+/-! ### the time-course form -/
+
+theorem ptcLoopF_none {σ} (S : Sys σ) (full : List Rat) : ∀ (prot : Protocol) (T : Rat) (s : Sim σ),
+    ptcLoopF S full none T s prot = ptcLoop S full T s prot
+  | [], _, _ => rfl
+  | (tEnd, p) :: rest, T, s => by
+    simp only [ptcLoopF, ptcLoop, decFail]
+    rcases updPars s p with ⟨s1, _ | e⟩
+    · simp only [reduceCtorEq, if_false]
+      rcases timeCourse S s1 (select full T tEnd) with ⟨s2, _ | e⟩
+      · simp only
+        split
+        · rfl
+        · exact ptcLoopF_none S full rest tEnd s2
+      · rfl
+    · rfl
+
+theorem expandProtocolTCF_none (pts : List Rat) : ∀ (steps : List PStep) (T : Rat),
+    expandProtocolTCF pts none T steps = expandProtocolTC pts T steps := by
+  intro steps
+  induction steps with
+  | nil => intro T; rfl
+  | cons st rest ih => intro T; obtain ⟨d, p⟩ := st; simp [expandProtocolTCF, expandProtocolTC, decFail, ih]
+
+theorem ptcLoopF_failed {σ} (S : Sys σ) (pts idx : List Rat) (hnd : idx.Nodup) :
+    ∀ (steps : List PStep) (T : Rat) (s : Sim σ) (pre : List Rat),
+    s.errors > 0 → s.segs.isSome = true → steps.all (fun s => decide (0 < s.1)) = true →
+    idx = pre ++ (cumRows T steps).map (·.1) → (∀ b ∈ pre, b ≤ T) →
+    ptcLoopF S (outerJoin idx pts) none T s (cumRows T steps) = runStop S s (expandProtocolTCF pts none T steps)
+  | [], _, _, _, _, _, _, _, _ => rfl
+  | (d, p) :: rest, T, s, pre, he, hs, hpos, hidx, hpre => by
+    have hpos' := hpos
+    simp only [List.all_cons, Bool.and_eq_true, decide_eq_true_eq] at hpos'
+    have hsel : select (outerJoin idx pts) T (T + d) = stepPoints pts T (T + d) := by
+      apply select_outerJoin idx pts T (T + d) _ hnd (by grind)
+      · intro b hb h1 h2
+        rw [hidx] at hb
+        simp only [cumRows, List.map_cons, List.mem_append, List.mem_cons] at hb
+        rcases hb with h | h | h
+        · have := hpre b h; grind
+        · exact h
+        · obtain ⟨r, hr, rfl⟩ := List.mem_map.mp h
+          have := cumRows_gt (T + d) rest hpos'.2 r hr
+          grind
+      · rw [hidx]; simp [cumRows]
+    simp only [cumRows, ptcLoopF, expandProtocolTCF, runStop, step, hsel, decFail, reduceCtorEq, if_false]
+    have hu : (updPars s p).1.errors > 0 := he
+    have hu2 : (updPars s p).1.segs.isSome = true := hs
+    rcases hup : updPars s p with ⟨s1, _ | e⟩
+    · rw [hup] at hu hu2
+      simp only
+      have htc : timeCourse S s1 (stepPoints pts T (T + d)) = (s1, none) := by simp [timeCourse, hu]
+      rw [htc]
+      have hnone : s1.segs.isNone = false := by cases hh : s1.segs <;> simp [hh] at hu2 ⊢
+      simp only [hnone, Bool.false_eq_true, if_false]
+      exact ptcLoopF_failed S pts idx hnd rest (T + d) s1 (pre ++ [T + d]) hu hu2 hpos'.2
+        (by rw [hidx]; simp [cumRows])
+        (by
+          intro b hb
+          rcases List.mem_append.mp hb with h | h
+          · have := hpre b h; grind
+          · simp at h; subst h; exact Rat.le_refl)
+    · rfl
+
+theorem ptcLoopF_eq {σ} (S : Sys σ) (pts idx : List Rat) (hnd : idx.Nodup) :
+    ∀ (steps : List PStep) (T : Rat) (s : Sim σ) (pre : List Rat) (k : Option Nat),
+    s.errors = 0 → (k = some 0 → s.segs.isSome = true) → steps.all (fun s => decide (0 < s.1)) = true →
+    idx = pre ++ (cumRows T steps).map (·.1) → (∀ b ∈ pre, b ≤ T) →
+    ptcLoopF S (outerJoin idx pts) k T s (cumRows T steps) = runStop S s (expandProtocolTCF pts k T steps)
+  | [], _, _, _, _, _, _, _, _, _ => rfl
+  | (d, p) :: rest, T, s, pre, none, he, _, hpos, hidx, hpre => by
+    rw [ptcLoopF_none, expandProtocolTCF_none]
+    exact ptcLoop_eq S pts idx hnd ((d, p) :: rest) T s pre he hpos hidx hpre
+  | (d, p) :: rest, T, s, pre, some 0, he, hk, hpos, hidx, hpre => by
+    have hs := hk rfl
+    have hpos' := hpos
+    simp only [List.all_cons, Bool.and_eq_true, decide_eq_true_eq] at hpos'
+    have hsel : select (outerJoin idx pts) T (T + d) = stepPoints pts T (T + d) := by
+      apply select_outerJoin idx pts T (T + d) _ hnd (by grind)
+      · intro b hb h1 h2
+        rw [hidx] at hb
+        simp only [cumRows, List.map_cons, List.mem_append, List.mem_cons] at hb
+        rcases hb with h | h | h
+        · have := hpre b h; grind
+        · exact h
+        · obtain ⟨r, hr, rfl⟩ := List.mem_map.mp h
+          have := cumRows_gt (T + d) rest hpos'.2 r hr
+          grind
+      · rw [hidx]; simp [cumRows]
+    simp only [cumRows, ptcLoopF, expandProtocolTCF, runStop, step, hsel, decFail, if_true]
+    have hu : (updPars s p).1.errors = 0 := he
+    have hu2 : (updPars s p).1.segs.isSome = true := hs
+    rcases hup : updPars s p with ⟨s1, _ | e⟩
+    · rw [hup] at hu hu2
+      simp only
+      rw [timeCourseF_eq]
+      rcases failInstead_cases s1 (timeCourse S s1 (stepPoints pts T (T + d))) hu with ⟨e, _, hfi⟩ | ⟨_, hfi⟩
+      · rw [hfi]
+      · rw [hfi]
+        have hnone : s1.segs.isNone = false := by cases hh : s1.segs <;> simp [hh] at hu2 ⊢
+        simp only [hnone, Bool.false_eq_true, if_false]
+        exact ptcLoopF_failed S pts idx hnd rest (T + d) { s1 with errors := s1.errors + 1 } (pre ++ [T + d])
+          (Nat.succ_pos _) hu2 hpos'.2
+          (by rw [hidx]; simp [cumRows])
+          (by
+            intro b hb
+            rcases List.mem_append.mp hb with h | h
+            · have := hpre b h; grind
+            · simp at h; subst h; exact Rat.le_refl)
+    · rfl
+  | (d, p) :: rest, T, s, pre, some (j + 1), he, _, hpos, hidx, hpre => by
+    have hpos' := hpos
+    simp only [List.all_cons, Bool.and_eq_true, decide_eq_true_eq] at hpos'
+    have hsel : select (outerJoin idx pts) T (T + d) = stepPoints pts T (T + d) := by
+      apply select_outerJoin idx pts T (T + d) _ hnd (by grind)
+      · intro b hb h1 h2
+        rw [hidx] at hb
+        simp only [cumRows, List.map_cons, List.mem_append, List.mem_cons] at hb
+        rcases hb with h | h | h
+        · have := hpre b h; grind
+        · exact h
+        · obtain ⟨r, hr, rfl⟩ := List.mem_map.mp h
+          have := cumRows_gt (T + d) rest hpos'.2 r hr
+          grind
+      · rw [hidx]; simp [cumRows]
+    have hne : (some (j + 1) = some 0) = False := by simp
+    simp only [cumRows, ptcLoopF, expandProtocolTCF, runStop, step, hsel, decFail, hne, if_false]
+    have hu : (updPars s p).1.errors = 0 := he
+    rcases hup : updPars s p with ⟨s1, _ | e⟩
+    · rw [hup] at hu
+      simp only
+      have hs := timeCourse_ok S s1 (stepPoints pts T (T + d)) hu
+      rcases htc : timeCourse S s1 (stepPoints pts T (T + d)) with ⟨s2, _ | e⟩
+      · rw [htc] at hs
+        have hsome : s2.segs.isNone = false := by
+          have := hs.2 rfl
+          cases hh : s2.segs <;> simp [hh] at this ⊢
+        simp only [hsome, Bool.false_eq_true, if_false]
+        exact ptcLoopF_eq S pts idx hnd rest (T + d) s2 (pre ++ [T + d]) (some j) hs.1 (fun _ => hs.2 rfl) hpos'.2
+          (by rw [hidx]; simp [cumRows])
+          (by
+            intro b hb
+            rcases List.mem_append.mp hb with h | h
+            · have := hpre b h; grind
+            · simp at h; subst h; exact Rat.le_refl)
+      · rfl
+    · rfl
+
+theorem ptcLoopF_break {σ} (S : Sys σ) (pts idx : List Rat) (hnd : idx.Nodup) (d : Rat) (p : Upd)
+    (rest : List PStep) (T : Rat) (s : Sim σ) (pre : List Rat) (he : s.errors = 0) (hs : s.segs = none)
+    (hpos : ((d, p) :: rest).all (fun s => decide (0 < s.1)) = true)
+    (hidx : idx = pre ++ (cumRows T ((d, p) :: rest)).map (·.1)) (hpre : ∀ b ∈ pre, b ≤ T) :
+    ptcLoopF S (outerJoin idx pts) (some 0) T s (cumRows T ((d, p) :: rest)) =
+      runStop S s [.updPars p, .timeCourseF (stepPoints pts T (T + d))] := by
+    have hpos' := hpos
+    simp only [List.all_cons, Bool.and_eq_true, decide_eq_true_eq] at hpos'
+    have hsel : select (outerJoin idx pts) T (T + d) = stepPoints pts T (T + d) := by
+      apply select_outerJoin idx pts T (T + d) _ hnd (by grind)
+      · intro b hb h1 h2
+        rw [hidx] at hb
+        simp only [cumRows, List.map_cons, List.mem_append, List.mem_cons] at hb
+        rcases hb with h | h | h
+        · have := hpre b h; grind
+        · exact h
+        · obtain ⟨r, hr, rfl⟩ := List.mem_map.mp h
+          have := cumRows_gt (T + d) rest hpos'.2 r hr
+          grind
+      · rw [hidx]; simp [cumRows]
+    simp only [cumRows, ptcLoopF, runStop, step, hsel, if_true]
+    have hu : (updPars s p).1.errors = 0 := he
+    have hu2 : (updPars s p).1.segs = none := hs
+    rcases hup : updPars s p with ⟨s1, _ | e⟩
+    · rw [hup] at hu hu2
+      simp only
+      rw [timeCourseF_eq]
+      rcases failInstead_cases s1 (timeCourse S s1 (stepPoints pts T (T + d))) hu with ⟨e, _, hfi⟩ | ⟨_, hfi⟩
+      · rw [hfi]
+      · rw [hfi]
+        have hu3 : s1.segs = none := hu2
+        simp only [hu3, Option.isNone_none, if_true]
+    · rfl
+
+theorem simulateProtocolTCF_eq {σ} (S : Sys σ) (s : Sim σ) (steps : List PStep) (pts : List Rat)
+    (rel : Bool) (k : Nat) (T : Rat) (hwf : wfSteps steps = true) (he : s.errors = 0)
+    (hT : reached? s.segs = .ok T) :
+    simulateProtocolTCF S s (makeProtocol steps) pts rel k =
+      (if steps.isEmpty then (s, some .typeError) else
+       match (if rel then pts.map (· + T) else pts).getLast? with
+       | none => (s, some .indexError)
+       | some last =>
+         if last ≤ T then (s, some .valueError) else
+         runStop S s (if k == 0 && s.segs.isNone
+           then (expandProtocolTCF (if rel then pts.map (· + T) else pts) (some k) T (normSteps steps)).take 2
+           else expandProtocolTCF (if rel then pts.map (· + T) else pts) (some k) T (normSteps steps))) := by
+  have hpos : (normSteps steps).all (fun s => decide (0 < s.1)) = true := normSteps_pos steps hwf
+  unfold simulateProtocolTCF
+  simp only [he, Nat.lt_irrefl, if_false, gt_iff_lt, hT, makeProtocol_wf steps hwf, gen_protocolTCRefusal,
+    decide_eq_true_eq, cumRows_isEmpty, normSteps_isEmpty]
+  split
+  · rfl
+  · rename_i hemp
+    have hshift : (cumRows 0 (normSteps steps)).map (fun r => (r.1 + T, r.2)) = cumRows T (normSteps steps) := by
+      rw [cumRows_shift]
+      have : (0 : Rat) + T = T := by grind
+      rw [this]
+    rw [hshift]
+    cases (if rel then pts.map (· + T) else pts).getLast? with
+    | none => rfl
+    | some last =>
+      simp only
+      split
+      · rfl
+      · have hemp' : (normSteps steps).isEmpty = false := by rw [normSteps_isEmpty]; simpa using hemp
+        generalize normSteps steps = ns at hpos hemp'
+        cases ns with
+        | nil => simp at hemp'
+        | cons st rest =>
+          have hne : (cumRows T (st :: rest)).getLast? ≠ none := by
+            obtain ⟨d, p⟩ := st
+            simp [cumRows]
+          have hnd := (cumRows_pairwise T (st :: rest) hpos).imp (R := (· < ·)) (S := (· ≠ ·)) (by intro a b hab; grind)
+          cases hgl : (cumRows T (st :: rest)).getLast? with
+          | none => exact absurd hgl hne
+          | some r =>
+            simp only
+            by_cases hb : (k == 0 && s.segs.isNone) = true
+            · simp only [hb, if_true]
+              simp only [Bool.and_eq_true, beq_iff_eq] at hb
+              obtain ⟨hk, hsn⟩ := hb
+              subst hk
+              have hsn' : s.segs = none := by cases hh : s.segs <;> simp [hh] at hsn ⊢
+              obtain ⟨d, p⟩ := st
+              rw [ptcLoopF_break S _ _ hnd d p rest T s [] he hsn' hpos (by simp) (by intro b hb; simp at hb)]
+              simp [expandProtocolTCF]
+            · simp only [hb, Bool.false_eq_true, if_false]
+              refine ptcLoopF_eq S _ _ hnd (st :: rest) T s [] (some k) he ?_ hpos (by simp) (by intro b hb; simp at hb)
+              intro hk
+              simp only [Option.some.injEq] at hk
+              subst hk
+              cases hh : s.segs <;> simp [hh] at hb ⊢
+
+theorem protocolTCF_refines {σ} (S : Sys σ) {s : Sim σ} {a : Spec σ} (r : Rel s a) (steps : List PStep)
+    (pts : List Rat) (rel : Bool) (k : Nat) (hwf : wfSteps steps = true) :
+    (simulateProtocolTCF S s (makeProtocol steps) pts rel k).2 = (Spec.protocolTCF S a steps pts rel k).2 ∧
+      Rel (simulateProtocolTCF S s (makeProtocol steps) pts rel k).1 (Spec.protocolTCF S a steps pts rel k).1 := by
+  simp only [Spec.protocolTCF]
+  by_cases hf : a.failed = true
+  · simp [simulateProtocolTCF, hf, r.errors_pos hf, r]
+  · have hf' : a.failed = false := by simpa using hf
+    rw [simulateProtocolTCF_eq S s steps pts rel k a.now hwf (errors_of_live r hf') r.reached]
+    simp only [hf', Bool.false_eq_true, if_false, r.segs]
+    split
+    · exact ⟨rfl, r⟩
+    · cases (if rel then pts.map (· + a.now) else pts).getLast? with
+      | none => exact ⟨rfl, r⟩
+      | some last =>
+        simp only
+        split
+        · exact ⟨rfl, r⟩
+        · exact runStop_refines S _ s a r
+
 theorem stepP_refines {σ} (S : Sys σ) {s : Sim σ} {a : Spec σ} (r : Rel s a) (op : OpP)
     (hwf : wfOp op = true) :
     (stepP S s op).2 = (Spec.stepP S a op).2 ∧ Rel (stepP S s op).1 (Spec.stepP S a op).1 := by
@@ -79,6 +502,8 @@ theorem stepP_refines {σ} (S : Sys σ) {s : Sim σ} {a : Spec σ} (r : Rel s a)
           split
           · exact ⟨rfl, r⟩
           · exact runStop_refines S _ s a r
+  | protocolF steps n k => exact protocolF_refines S r steps n k hwf
+  | protocolTCF steps pts rel k => exact protocolTCF_refines S r steps pts rel k hwf
 
 theorem runP_refines {σ} (S : Sys σ) : ∀ (ops : List OpP) (s : Sim σ) (a : Spec σ),
     Rel s a → ops.all wfOp = true →
@@ -116,6 +541,24 @@ theorem Spec.stepP_axis {σ} (S : Sys σ) (a : Spec σ) (op : OpP) (ax : Spec.Ax
     · exact Spec.runStop_axis S _ a ax
   | protocolTC steps pts rel =>
     simp only [Spec.stepP, Spec.protocolTC]
+    split
+    · exact ax
+    · split
+      · exact ax
+      · cases (if rel then pts.map (· + a.now) else pts).getLast? with
+        | none => exact ax
+        | some last =>
+          simp only
+          split
+          · exact ax
+          · exact Spec.runStop_axis S _ a ax
+  | protocolF steps n k =>
+    simp only [Spec.stepP, Spec.protocolF]
+    split
+    · exact ax
+    · exact Spec.runStop_axis S _ a ax
+  | protocolTCF steps pts rel k =>
+    simp only [Spec.stepP, Spec.protocolTCF]
     split
     · exact ax
     · split
